@@ -655,9 +655,13 @@ func (vt *Model) decstbm(pm [][]int) {
 	case 1:
 		top = row(pm[0][0] - 1)
 		bot = row(vt.height()) - 1
-	case 2:
+	default:
+		// extra parameters are ignored; a bottom of 0 means the last line
 		top = row(pm[0][0] - 1)
 		bot = row(pm[1][0] - 1)
+		if bot < 0 {
+			bot = row(vt.height()) - 1
+		}
 	}
 	// a parameter of 0 means 1; the region cannot extend past the screen
 	if top < 0 {
